@@ -6,3 +6,4 @@
 #define HAVE_C05 1
 #define HAVE_C06 1
 #define HAVE_C15 1
+#define HAVE_C09 1
